@@ -546,6 +546,10 @@ class ResourceScenario(ScenarioData):
         # Check if resource has a shift reference
         shift = self.property.get("shifts", self.scenarioIdx)
         if shift:
+            # Leaves declared on the shift apply to everybody working that shift
+            for leave in shift.get("leaves", self.scenarioIdx) or []:
+                if hasattr(leave, "interval") and leave.interval and leave.interval.start <= date < leave.interval.end:
+                    return False
             # Use the shift's working hours
             shift_wh = shift.get("workinghours", self.scenarioIdx)
             if shift_wh and hasattr(shift_wh, "onShift"):
